@@ -251,9 +251,28 @@ func checkOrderTaint(c *fw.Ctx) {
 				reason, ok := orderExemptReturns[s.Target]
 				// ordering entry points return their canonical output through sanitised values only
 				construct := fmt.Sprintf("%s returns an unordered sequence", strings.TrimPrefix(name, "gmsl."))
-				if ok {
+				// the sequence is produced by a helper that does sort, with a comparator handed to it
+				// as a value (a generic ordering routine): whether that order is total is not examined here
+				sortsInHelper := false
+				if strings.HasPrefix(s.Why, "result of ") {
+					hn := strings.TrimPrefix(s.Why, "result of ")
+					for _, f := range c.P.SrcFuncs() {
+						if fw.FuncName(f) != hn {
+							continue
+						}
+						for _, dc := range fw.AllDeepCalls(f, nil) {
+							if n := fw.CalleeName(dc.Call); strings.HasPrefix(n, "slices.Sort") || strings.HasPrefix(n, "sort.") {
+								sortsInHelper = true
+							}
+						}
+					}
+				}
+				switch {
+				case ok:
 					c.Ok(rule, construct, pos, reason)
-				} else {
+				case sortsInHelper:
+					c.Undecided(rule, construct, fmt.Sprintf("%s returns the %s, which orders its output with a comparator the rule did not examine", name, s.Why))
+				default:
 					c.Fail(rule, construct, pos, fmt.Sprintf("%s returns a sequence whose order is unspecified (%s) although its result is an ordering / used as one", name, s.Why))
 				}
 			case "store-field":
